@@ -9,7 +9,10 @@
 (*     from LAYOUTS to each of the NL layers is an initial state.  The output cell <<r,c>>    *)
 (*     receives the value computed from iter_list[r*W + c] (reshape by the column count),    *)
 (*     so the mechanism is per-cell exactly when that entry stems from cell <<r,c>>.         *)
-(*     ORDER = "K" is np.nditer's default (the code today), "C" the order the reshape needs. *)
+(*     ORDER = "C" is the code (np.nditer(..., order='C'), fix ffb8ff0): PosIsIdentity must   *)
+(*     hold for EVERY layout assignment.  ORDER = "K" (np.nditer's default, the code before   *)
+(*     the fix) is a negative twin: TLC must reject PosIsIdentity once Fortran-ordered or     *)
+(*     reversed layouts are admitted; IdentityIffNoScramble states its exact frontier.        *)
 (* MUT = "none", or the name of a deliberately wrong definition (negative twins of the laws):  *)
 (*     "last_min" (position of the LAST minimum), "lesser_or_equal" (<= counted as below).    *)
 EXTENDS LocalOps, TLC
